@@ -564,6 +564,11 @@ def check(run):
         new = U.dot(np.append(sc * pl, 1))
         old = Mx.dot(Cx.dot(np.append(pl, 1)))
         moved_ok = U is not Cx and all(zero(a_ - b_) for a_, b_ in zip(new, old))
+        if skipped:
+            # part of the function is outside E3 (an external call it has no transfer function for): the identity is not decided
+            run.instance("R10", pa_.where, f"{kind}: Primitive.apply_transform not translatable ({str(skipped[:1])[:80]}) - NOT decided", True, nontrivial=False)
+            run.assume(f"Primitive.apply_transform ({kind}): outside E3 ({str(skipped[:1])[:100]}); re-parameterisation under scaling not decided")
+            continue
         ok = scaled_ok and moved_ok and not skipped
         run.obligation("R10", pa_.where, f"{kind}: size parameters {sizes} scaled by s: {scaled_ok}; T'.(s p) == M.T.p: {moved_ok}"
                                          f"{'; untranslated: ' + str(skipped[:2]) if skipped else ''}", ok)
